@@ -279,6 +279,10 @@ struct C16 : Prop {
 			std::vector<std::string> keys;
 			for (size_t i = b; i < e.bus.wire.size(); i++) keys.push_back(pc::msg_key(e.bus.wire[i].msg));
 			std::sort(keys.begin(), keys.end());
+			// (a session in which the application resets the system: what is still held back when the reset begins is void and dropped (fix 73611d4) -
+			// whether a start-up message is still held back at that moment depends on the timing; such sessions compare the SET of messages)
+			bool has_reset = false; for (size_t q = 0; q < se["phases"].size(); q++) { const J &ph = se["phases"][q]; for (size_t k2 = 0; k2 < ph["pre"].size(); k2++) if (ph["pre"][k2].gets("op") == "reset") has_reset = true; }
+			if (has_reset) keys.erase(std::unique(keys.begin(), keys.end()), keys.end());
 			tr.clear(); for (auto &k : keys) tr += k + " ";
 			st.clear();      // (a getter result depends on which answers have arrived when it runs)
 			robust_compared++;
